@@ -106,17 +106,18 @@ claimed = {
          "push appends at the back, nothing else changes. memoryAllocatorImpl.removePage (Free/RemovePage) is proved to drop the page from the allocator's live-page map. "
          "allocatePages records every page it creates (also for a unified multi-GPU device, whose pages come from member GPUs) on the device whose physical range contains the page, with the requested process, size and consecutive virtual addresses (site obligations at the page-table insert). "
          "Driver.FreeMemory marks the buffer freed and hands the allocator every page-aligned offset below the buffer's recorded size (so that all of its pages are unmapped and returned). "
-         "Remap/Distribute/migration, the buddy allocator and the virtual-address bookkeeping are not yet under contract."),
+         "Re-mapping (Remap, used by Distribute) records every virtual page on the target device with the physical page taken for it there and hands the physical page it was mapped to before back to the device that owns it. "
+         "Page migration preparation (which keeps the old page alive for the copy and never frees it), the buddy allocator and the virtual-address bookkeeping are not yet under contract."),
    note=(TB + "Assumed: storage sizes are multiples of the page size and below 2^48; the akita page table is an external component (extern declarations); deviceIDByPAddr enters through a trusted contract "
-         "(map iteration is not modelled). Three genuine defects repaired (stale live-page entry after Free; removeFreedBuffers; Driver.FreeMemory freed only the first page of a multi-page buffer)."),
+         "(map iteration is not modelled). Four genuine defects repaired (stale live-page entry after Free; removeFreedBuffers; Driver.FreeMemory freed only the first page of a multi-page buffer; Remap leaked the physical pages it replaced). In the re-mapping loop the well-formedness of the device table is assumed at the owner lookup (assume-at), not carried as an invariant. Observed, not decided: page migration never frees the page it migrates away from."),
    design="5 (C10)", technique="deductive verification: WP-style VC generation over go/ssa + SMT (queue view of the free list, loop invariant with page-size case split)"),
  "C14": dict(
    text=("The two wait guards of the timing scheduler are under contract for every wavefront state: evalSWaitCnt completes exactly when both outstanding-access counters are at or below the counts the instruction asks for, "
          "and evalSEndPgm never completes (and changes nothing) while a vector or scalar memory access of the wavefront is outstanding; ScalarUnit.executeSMEMLoad splits a scalar load into fragments that tile the range and marks every fragment but the last as coalescable (the response handler decrements the counter for the unmarked one). EvaluateInternalInst removes a released work-group from both executing lists when a barrier is passed (site obligations; removeAllWfFromInternalExecuting keeps no wavefront of the released group). "
          "The three memory-response handlers of the compute unit (scalar load, vector load, vector store) match a response to the in-flight entry with the same request id, remove exactly one entry, and decrement the wavefront's outstanding counters by one exactly for the response of the last (not coalescable) request of an instruction (both counters for FLAT), and not otherwise. "
-         "Completion messages and the emulation-mode barrier are not yet under contract."),
+         "The emulation-mode barrier (emu.ComputeUnit.resolveBarrier, isAllWfCompleted) releases every unfinished wavefront, leaves finished ones alone and stops only if an unfinished wavefront has not reached the barrier. Completion messages are not yet under contract."),
    note=(TB + "The helpers the guards call after their decision (work-group scans, completion message, register reset, tracing) are declared external (frame-only). "
-         "One genuine defect repaired (shared with C02: sub-word FLAT load write-back). One known finding (demonstrated on the real scheduler in the thorough tier): wavefronts held in the internally-executing list because the barrier buffer is full are released by another wavefront's s_endpgm without leaving that list, and then wait at the passed barrier forever."),
+         "Two genuine defects repaired (shared with C02: sub-word FLAT load write-back; the emulator panicked at a barrier when a wavefront of the group had already ended). One known finding (demonstrated on the real scheduler in the thorough tier): wavefronts held in the internally-executing list because the barrier buffer is full are released by another wavefront's s_endpgm without leaving that list, and then wait at the passed barrier forever."),
    design="5 (C14)", technique="deductive verification: WP-style VC generation over go/ssa + SMT (pre/postconditions of the guard functions)"),
  "C15": dict(
    text=("Step contracts of the reorder buffer, for every state and message: the copies forwarded to the lower level carry the requester's address, size, PID, data and dirty mask unchanged and are addressed to the bottom unit "
